@@ -28,6 +28,7 @@ FAMILIES = [
     [0.0, 0.5, 1.0, 1.5, 2.0],
     [None, float('nan'), 'x', 7, True],
     ['', 'a', 'b\n', 10 ** 30, -0.0],
+    [0, 1, 1.0, True, 0.0],      # values that compare equal but are different values (type, representation)
 ]
 
 
